@@ -461,3 +461,683 @@ static void run_exec(run_t *R)
         R->ping_ok = w->s[1].delivered.len == 4 && !memcmp(w->s[1].delivered.p, "ping", 4) && w->s[0].delivered.len == 5 && !memcmp(w->s[0].delivered.p, "pong!", 5);
     }
 }
+
+/* ----------------------------------------------------------------------------- products -> config */
+enum { P_VER = 0, P_VERD, P_VXS, P_SUITE, P_SUITE12, P_GRP13, P_GRP12, P_SIG13, P_SIG12, P_SIG13CA, P_EMS, P_FB, P_RW, P_NPROD };
+static const char *pname[] = { "ver", "verd", "vxs", "suite", "suite12", "grp13", "grp12", "sig13", "sig12", "sig13ca", "ems", "fb", "rw" };
+static long psize(int p)
+{
+    static const long n[] = { NVL * NVL, 4, 2401, 225, 225, 450, 49, 225, 225, 225, 36, 25, 12 };
+    return n[p];
+}
+
+static void set_vl(int *dst, int *n, int li) { int i; *n = VL[li].n; for (i = 0; i < VL[li].n; i++) dst[i] = VL[li].v[i]; }
+static void set_dl(int *dst, int *n, int li) { int i; *n = DL[li].n; for (i = 0; i < DL[li].n; i++) dst[i] = DL[li].v[i]; }
+static int subset16(const uint16_t *pool, int npool, int mask, uint16_t *out) { int i, n = 0; for (i = 0; i < npool; i++) if (mask & (1 << i)) out[n++] = pool[i]; return n; }
+static int is_default_order(const int *v, int n) { int i; for (i = 0; i + 1 < n; i++) if (VT[v[i]].rank < VT[v[i + 1]].rank) return 0; return 1; }
+
+static const uint16_t POOL_VXS[3] = { S_13A, S_PSK2, S_PSK };
+static const uint16_t POOL_SUITE[4] = { S_13A, S_ERSA, S_EEC, S_PSK };
+static const uint16_t POOL_SUITE12[4] = { S_ERSA, S_ERSA2, S_ERSA3, S_ERSAC };
+static const uint16_t POOL_GRP[4] = { 0x0017, 0x0018, 0x0019, 0x001d };
+static const int POOL_EC[3] = { IS_SECP256R1, IS_SECP384R1, IS_SECP521R1 };
+static const uint16_t POOL_SIG13[4] = { 0x0804, 0x0805, 0x0806, 0x0403 };
+static const uint16_t POOL_SIG12[4] = { 0x0401, 0x0501, 0x0601, 0x0201 };
+
+static void rw_base(int b, ncfg_t *c);
+
+static int build_cfg(int prod, long idx, ncfg_t *c)
+{
+    int i;
+    memset(c, 0, sizeof(*c));
+    if (idx < 0 || idx >= psize(prod)) return -1;
+    switch (prod)
+    {
+    case P_VER:
+        c->keys = K_PSK;
+        set_vl(c->cver, &c->ncver, (int) (idx / NVL));
+        set_vl(c->sver, &c->nsver, (int) (idx % NVL));
+        c->csuite[0] = S_13A; c->csuite[1] = S_PSK; c->ncsuite = 2;
+        break;
+    case P_VERD:
+        c->keys = K_PSK; c->dtls = 1;
+        set_dl(c->cver, &c->ncver, (int) (idx / 2));
+        set_dl(c->sver, &c->nsver, (int) (idx % 2));
+        c->csuite[0] = S_PSK; c->ncsuite = 1;
+        break;
+    case P_VXS:
+    {
+        int cv = (int) (idx % 7), sv = (int) (idx / 7 % 7), cs = (int) (idx / 49 % 7) + 1, ss = (int) (idx / 343) + 1;
+        c->keys = K_PSK;
+        set_vl(c->cver, &c->ncver, cv);
+        set_vl(c->sver, &c->nsver, sv);
+        c->ncsuite = subset16(POOL_VXS, 3, cs, c->csuite);
+        c->nsdis = subset16(POOL_VXS, 3, ~ss & 7, c->sdis);
+        break;
+    }
+    case P_SUITE:
+    case P_SUITE12:
+    {
+        const uint16_t *pool = prod == P_SUITE ? POOL_SUITE : POOL_SUITE12;
+        int cs = (int) (idx % 15) + 1, ss = (int) (idx / 15) + 1;
+        c->keys = prod == P_SUITE ? K_ALL : K_RSA;
+        set_vl(c->cver, &c->ncver, prod == P_SUITE ? 6 : 1);
+        set_vl(c->sver, &c->nsver, prod == P_SUITE ? 6 : 1);
+        c->ncsuite = subset16(pool, 4, cs, c->csuite);
+        c->nsdis = subset16(pool, 4, ~ss & 15, c->sdis);
+        break;
+    }
+    case P_GRP13:
+    {
+        int cs = (int) (idx % 15) + 1, ss = (int) (idx / 15 % 15) + 1;
+        c->keys = K_RSA;
+        set_vl(c->cver, &c->ncver, 0);
+        set_vl(c->sver, &c->nsver, 0);
+        c->csuite[0] = S_13A; c->ncsuite = 1;
+        c->ncgrp = subset16(POOL_GRP, 4, cs, c->cgrp);
+        c->nsgrp = subset16(POOL_GRP, 4, ss, c->sgrp);
+        c->nshares = idx >= 225 ? 2 : 1;
+        if (c->nshares > c->ncgrp) return -1;
+        break;
+    }
+    case P_GRP12:
+    {
+        int cs = (int) (idx % 7) + 1, ss = (int) (idx / 7) + 1;
+        c->keys = K_RSA;
+        set_vl(c->cver, &c->ncver, 1);
+        set_vl(c->sver, &c->nsver, 1);
+        c->csuite[0] = S_ERSA; c->ncsuite = 1;
+        for (i = 0; i < 3; i++) { if (cs & (1 << i)) c->cec |= POOL_EC[i]; if (ss & (1 << i)) c->sec |= POOL_EC[i]; }
+        break;
+    }
+    case P_SIG13:
+    case P_SIG13CA:
+    case P_SIG12:
+    {
+        const uint16_t *pool = prod == P_SIG12 ? POOL_SIG12 : POOL_SIG13;
+        int cs = (int) (idx % 15) + 1, ss = (int) (idx / 15) + 1, li = prod == P_SIG12 ? 1 : 0;
+        c->keys = K_RSA;
+        set_vl(c->cver, &c->ncver, li);
+        set_vl(c->sver, &c->nsver, li);
+        c->csuite[0] = prod == P_SIG12 ? S_ERSA : S_13A; c->ncsuite = 1;
+        c->ncsig = subset16(pool, 4, cs, c->csig);
+        c->nssig = subset16(pool, 4, ss, c->ssig);
+        c->client_auth = prod == P_SIG13CA;
+        break;
+    }
+    case P_EMS:
+    {
+        static const int ev[3] = { 0, -1, 1 };
+        int mode = (int) (idx / 9);
+        c->cems = ev[idx % 3]; c->sems = ev[idx / 3 % 3];
+        c->keys = mode == 1 ? K_RSA : K_PSK;
+        c->dtls = mode == 3;
+        if (c->dtls) { set_dl(c->cver, &c->ncver, 1); set_dl(c->sver, &c->nsver, 1); }
+        else { set_vl(c->cver, &c->ncver, mode == 2 ? 2 : 1); set_vl(c->sver, &c->nsver, mode == 2 ? 2 : 1); }
+        c->csuite[0] = mode == 1 ? S_RSA : S_PSK; c->ncsuite = 1;
+        break;
+    }
+    case P_FB:
+        c->keys = K_PSK; c->fallback = 1;
+        if (idx < 21)
+        {
+            static const int cl[3] = { 1, 2, 5 };
+            set_vl(c->cver, &c->ncver, cl[idx / 7]);
+            set_vl(c->sver, &c->nsver, (int) (idx % 7));
+            c->csuite[0] = S_13A; c->csuite[1] = S_PSK; c->ncsuite = 2;
+        }
+        else
+        {
+            c->dtls = 1;
+            set_dl(c->cver, &c->ncver, (int) ((idx - 21) / 2));
+            set_dl(c->sver, &c->nsver, (int) ((idx - 21) % 2));
+            c->csuite[0] = S_PSK; c->ncsuite = 1;
+        }
+        break;
+    case P_RW:
+        rw_base((int) idx, c);
+        break;
+    default:
+        return -1;
+    }
+    return 0;
+}
+
+/* representative configuration pairs for the man-in-the-middle rewrites */
+static void rw_base(int b, ncfg_t *c)
+{
+    static const uint16_t s3[3] = { S_13A, S_ERSA, S_RSA };
+    memset(c, 0, sizeof(*c));
+    c->keys = K_RSA;
+    memcpy(c->csuite, s3, sizeof(s3)); c->ncsuite = 3;
+    switch (b)
+    {
+    case 0: set_vl(c->cver, &c->ncver, 6); set_vl(c->sver, &c->nsver, 6); snprintf(c->label, sizeof(c->label), "tls13-rsa(c=s={1.3,1.2,1.1})"); break;
+    case 1: set_vl(c->cver, &c->ncver, 6); set_vl(c->sver, &c->nsver, 5); snprintf(c->label, sizeof(c->label), "tls12-ecdhe-rsa(c={1.3,1.2,1.1},s={1.2,1.1})"); break;
+    case 2: set_vl(c->cver, &c->ncver, 5); set_vl(c->sver, &c->nsver, 6); snprintf(c->label, sizeof(c->label), "tls12-ecdhe-rsa(c={1.2,1.1},s={1.3,1.2,1.1})"); break;
+    case 3: c->dtls = 1; c->keys = K_PSK; set_dl(c->cver, &c->ncver, 1); set_dl(c->sver, &c->nsver, 1); c->csuite[0] = S_PSK; c->csuite[1] = S_PSK2; c->ncsuite = 2; snprintf(c->label, sizeof(c->label), "dtls12-psk(c=s={d1.2,d1.0})"); break;
+    case 4: c->keys = K_PSK; set_vl(c->cver, &c->ncver, 1); set_vl(c->sver, &c->nsver, 1); c->csuite[0] = S_PSK; c->csuite[1] = S_PSK2; c->ncsuite = 2; snprintf(c->label, sizeof(c->label), "tls12-psk(c=s={1.2})"); break;
+    case 5: set_vl(c->cver, &c->ncver, 2); set_vl(c->sver, &c->nsver, 5); c->csuite[0] = S_RSA; c->csuite[1] = S_ERSAC; c->ncsuite = 2; snprintf(c->label, sizeof(c->label), "tls11-rsa(c={1.1},s={1.2,1.1})"); break;
+    case 6: c->dtls = 1; set_dl(c->cver, &c->ncver, 0); set_dl(c->sver, &c->nsver, 1); c->csuite[0] = S_RSA; c->csuite[1] = S_ERSAC; c->ncsuite = 2; snprintf(c->label, sizeof(c->label), "dtls10-rsa(c={d1.0},s={d1.2,d1.0})"); break;
+    case 7: c->keys = K_PSK; set_vl(c->cver, &c->ncver, 0); set_vl(c->sver, &c->nsver, 0); c->csuite[0] = S_13A; c->csuite[1] = S_13B; c->ncsuite = 2; snprintf(c->label, sizeof(c->label), "tls13-psk(c=s={1.3})"); break;
+    case 8: set_vl(c->cver, &c->ncver, 3); set_vl(c->sver, &c->nsver, 3); c->cgrp[0] = 0x0017; c->cgrp[1] = 0x0018; c->ncgrp = 2; c->nshares = 1; c->sgrp[0] = 0x0018; c->nsgrp = 1; snprintf(c->label, sizeof(c->label), "tls13-rsa-hrr(c=s={1.3,1.2})"); break;
+    case 9: c->keys = K_EC; c->tickets = 1; set_vl(c->cver, &c->ncver, 1); set_vl(c->sver, &c->nsver, 1); c->csuite[0] = S_EEC; c->csuite[1] = S_EECG; c->ncsuite = 2; snprintf(c->label, sizeof(c->label), "tls12-ecdhe-ecdsa-ticket(c=s={1.2})"); break;
+    case 10: c->keys = K_EC; set_vl(c->cver, &c->ncver, 3); set_vl(c->sver, &c->nsver, 3); c->csuite[0] = S_13A; c->csuite[1] = S_EECG; c->ncsuite = 2; snprintf(c->label, sizeof(c->label), "tls13-ecdsa(c=s={1.3,1.2})"); break;
+    default: set_vl(c->cver, &c->ncver, 1); set_vl(c->sver, &c->nsver, 1); c->cems = 1; c->sems = 1; c->csuite[0] = S_RSAG; c->csuite[1] = S_RSA; c->ncsuite = 2; snprintf(c->label, sizeof(c->label), "tls12-rsa-ems-required(c=s={1.2})"); break;
+    }
+}
+
+static void cfg_text(const ncfg_t *c, char *out, size_t n)
+{
+    size_t l = 0;
+    int i;
+#define ADD(...) do { if (l < n) l += (size_t) snprintf(out + l, n - l, __VA_ARGS__); if (l >= n) l = n - 1; } while (0)
+    ADD("%s c=", kname[c->keys]);
+    if (!c->ncver) ADD("default"); else for (i = 0; i < c->ncver; i++) ADD("%s%s", i ? "," : "{", VT[c->cver[i]].name);
+    ADD("%s s=", c->ncver ? "}" : "");
+    if (!c->nsver) ADD("default"); else for (i = 0; i < c->nsver; i++) ADD("%s%s", i ? "," : "{", VT[c->sver[i]].name);
+    ADD("%s cs=", c->nsver ? "}" : "");
+    for (i = 0; i < c->ncsuite; i++) ADD("%s%04x", i ? "," : "", c->csuite[i]);
+    if (c->nsdis) { ADD(" sdis="); for (i = 0; i < c->nsdis; i++) ADD("%s%04x", i ? "," : "", c->sdis[i]); }
+    if (c->ncgrp) { ADD(" cg="); for (i = 0; i < c->ncgrp; i++) ADD("%s%04x", i ? "," : "", c->cgrp[i]); ADD("/%d", c->nshares); }
+    if (c->nsgrp) { ADD(" sg="); for (i = 0; i < c->nsgrp; i++) ADD("%s%04x", i ? "," : "", c->sgrp[i]); }
+    if (c->cec || c->sec) ADD(" cec=%x sec=%x", c->cec, c->sec);
+    if (c->ncsig) { ADD(" csig="); for (i = 0; i < c->ncsig; i++) ADD("%s%04x", i ? "," : "", c->csig[i]); }
+    if (c->nssig) { ADD(" ssig="); for (i = 0; i < c->nssig; i++) ADD("%s%04x", i ? "," : "", c->ssig[i]); }
+    if (c->cems || c->sems) ADD(" ems=%d/%d", c->cems, c->sems);
+    if (c->fallback) ADD(" fallback-scsv");
+    if (c->client_auth) ADD(" cauth");
+#undef ADD
+}
+
+/* -------------------------------------------------------------------------- reference negotiation */
+typedef struct {
+    int cset, ceff, sset, common;   /* rank bit masks (bit r = rank r) */
+    int ref_rank;                   /* highest rank in common for which a usable suite (+group) exists; 0 = not negotiable */
+    int top_rank;                   /* highest rank in common */
+    int default_order;
+} ref_t;
+
+static int in16(const uint16_t *l, int n, int v) { int i; for (i = 0; i < n; i++) if (l[i] == v) return 1; return 0; }
+
+static int sig_feasible(const ncfg_t *c, int rank)
+{
+    int i;
+    if (!c->ncsig && !c->nssig) return 1;
+    for (i = 0; i < c->ncsig; i++)
+    {
+        int a = c->csig[i];
+        if (c->nssig && !in16(c->ssig, c->nssig, a)) continue;
+        if (rank == 3 ? (a >= 0x0804 && a <= 0x0806) : (a == 0x0401 || a == 0x0501 || a == 0x0601 || a == 0x0201 || (a >= 0x0804 && a <= 0x0806))) return 1;
+    }
+    return 0;
+}
+
+static int rank_feasible(const ncfg_t *c, int rank)
+{
+    int i, j;
+    for (i = 0; i < c->ncsuite; i++)
+    {
+        int s = c->csuite[i];
+        if (in16(c->sdis, c->nsdis, s) || !suite_ok_for_rank(s, rank) || !suite_creds_ok(s, c->keys)) continue;
+        if (suite_is13(s) && c->ncgrp && c->nsgrp)
+        {
+            int common = 0;
+            for (j = 0; j < c->ncgrp; j++) if (in16(c->sgrp, c->nsgrp, c->cgrp[j])) common = 1;
+            if (!common) continue;
+        }
+        if (suite_is_ecdhe(s) && c->cec && c->sec && !(c->cec & c->sec)) continue;
+        if ((suite_is13(s) ? c->keys != K_PSK : suite_is_ecdhe(s)) && !sig_feasible(c, rank)) continue;
+        return 1;
+    }
+    return 0;
+}
+
+static void reference(const ncfg_t *c, ref_t *r)
+{
+    int i, has13suite = 0;
+    memset(r, 0, sizeof(*r));
+    for (i = 0; i < c->ncsuite; i++) if (suite_is13(c->csuite[i])) has13suite = 1;
+    if (!c->ncver) r->cset = 2 | 4 | 8; else for (i = 0; i < c->ncver; i++) r->cset |= 1 << VT[c->cver[i]].rank;
+    if (!c->nsver) r->sset = 2 | 4 | 8; else for (i = 0; i < c->nsver; i++) r->sset |= 1 << VT[c->sver[i]].rank;
+    r->ceff = has13suite ? r->cset : (r->cset & ~8);   /* documented: a client without TLS 1.3 suites does not advertise TLS 1.3 */
+    r->common = r->ceff & r->sset;
+    for (i = 3; i >= 1; i--)
+    {
+        if (!(r->common & (1 << i))) continue;
+        if (!r->top_rank) r->top_rank = i;
+        if (!r->ref_rank && rank_feasible(c, i)) r->ref_rank = i;
+    }
+    r->default_order = is_default_order(c->cver, c->ncver) && is_default_order(c->sver, c->nsver);
+}
+
+/* ------------------------------------------------------------------------------------- the oracle */
+typedef struct { int viol; char key[160], what[320], outcome[64]; } verdict_t;
+#define VIOL(K, ...) do { if (!v->viol) { v->viol = 1; snprintf(v->key, sizeof(v->key), "%s", K); snprintf(v->what, sizeof(v->what), __VA_ARGS__); } } while (0)
+
+static int enc_to_rank(int e) { return enc_rank(e); }
+static const char *enc_name(int e)
+{
+    switch (e) { case 0x0302: return "1.1"; case 0x0303: return "1.2"; case 0x0304: return "1.3"; case 0xfeff: return "d1.0"; case 0xfefd: return "d1.2"; case 0: return "none"; default: return "?"; }
+}
+
+static int any_alert(run_t *R)
+{
+    if (R->alert[0]) return R->alert[0];
+    if (R->alert[1]) return R->alert[1];
+    if (R->w.s[0].got_alert_lvl == 2) return R->w.s[0].got_alert_desc;
+    if (R->w.s[1].got_alert_lvl == 2) return R->w.s[1].got_alert_desc;
+    return 0;
+}
+
+/* server-side downgrade sentinel obligation (RFC 8446 4.1.3), checked on the ServerHello as the server sent it */
+static void check_sentinel(run_t *R, const ref_t *ref, verdict_t *v)
+{
+    const hello_t *sh;
+    int rank;
+    if (R->c->dtls || R->nsh == 0) return;
+    sh = &R->sh[R->nsh > 1 ? 1 : 0];
+    if (hello_is_hrr(sh) || hello_find(sh, X_SUPPORTED_VERSIONS) >= 0) return;
+    rank = enc_rank((sh->legacy[0] << 8) | sh->legacy[1]);
+    if ((ref->sset & 8) && rank >= 0 && rank < 3)
+    {
+        uint8_t want[8] = { 'D', 'O', 'W', 'N', 'G', 'R', 'D', (uint8_t) (rank == 2 ? 1 : 0) };
+        if (memcmp(sh->random + 24, want, 8))
+        {
+            VIOL("server-omits-downgrade-sentinel", "server with TLS 1.3 enabled negotiated %s but ServerHello.random does not end in DOWNGRD\\x%02x", enc_name((sh->legacy[0] << 8) | sh->legacy[1]), want[7]);
+        }
+    }
+    else if (!(ref->sset & 8) && (!memcmp(sh->random + 24, "DOWNGRD\x01", 8) || !memcmp(sh->random + 24, "DOWNGRD\x00", 8)) && R->c->nsver)
+    {
+        VIOL("server-sets-downgrade-sentinel-without-tls13", "server without TLS 1.3 put the downgrade sentinel into ServerHello.random");
+    }
+}
+
+/* membership / equality checks for a run in which both endpoints report completion */
+static void check_completed(run_t *R, const ref_t *ref, int assert_reference, verdict_t *v)
+{
+    const ncfg_t *c = R->c;
+    const hello_t *ch = &R->ch[R->nch > 1 ? 1 : 0];
+    int rank = enc_to_rank(R->ver_enc[0]), suite = R->suite[0], xi, n, i;
+    uint16_t l[64];
+    if (R->ver_enc[0] != R->ver_enc[1]) { VIOL("endpoints-disagree|version", "client %s, server %s", enc_name(R->ver_enc[0]), enc_name(R->ver_enc[1])); return; }
+    if (R->suite[0] != R->suite[1]) { VIOL("endpoints-disagree|suite", "client %04x, server %04x", R->suite[0], R->suite[1]); return; }
+    if (!R->keys_equal) VIOL("endpoints-disagree|keys", "both complete but the %s differ", rank == 3 ? "application traffic keys" : "master secrets");
+    if (!R->ping_ok) VIOL("endpoints-disagree|application-data", "both complete but application data does not pass in both directions");
+    if (rank < 1 || (c->dtls != (R->ver_enc[0] >= 0xfe00))) { VIOL("version-not-enabled|unknown", "negotiated version %04x", R->ver_enc[0]); return; }
+    if (!(ref->cset & (1 << rank))) VIOL("version-not-enabled|client", "negotiated %s which the client did not enable", enc_name(R->ver_enc[0]));
+    if (!(ref->sset & (1 << rank))) VIOL("version-not-enabled|server", "negotiated %s which the server did not enable", enc_name(R->ver_enc[0]));
+    xi = hello_find(ch, X_SUPPORTED_VERSIONS);
+    if (xi >= 0)
+    {
+        n = xlist_get(ch, xi, 1, l, 64);
+        if (!in16(l, n, R->ver_enc[0])) VIOL("version-not-offered", "negotiated %s is not in ClientHello.supported_versions", enc_name(R->ver_enc[0]));
+    }
+    else if (rank > enc_rank((ch->legacy[0] << 8) | ch->legacy[1]))
+    {
+        VIOL("version-not-offered", "negotiated %s is above ClientHello.client_version %02x%02x", enc_name(R->ver_enc[0]), ch->legacy[0], ch->legacy[1]);
+    }
+    if (assert_reference)
+    {
+        if (ref->default_order && ref->ref_rank == ref->top_rank && rank != ref->top_rank)
+        {
+            VIOL("version-not-highest-common", "default priority order: negotiated %s although both enabled rank %d", enc_name(R->ver_enc[0]), ref->top_rank);
+        }
+        if (!ref->default_order && ref->ref_rank == 3 && rank != 3)
+        {
+            VIOL("version-not-tls13-although-common", "both enabled TLS 1.3 (custom priority order) but %s was negotiated", enc_name(R->ver_enc[0]));
+        }
+    }
+    /* suite */
+    if (!in16(c->csuite, c->ncsuite, suite)) VIOL("suite-not-enabled|client", "suite %04x is not in the client's list", suite);
+    if (in16(c->sdis, c->nsdis, suite)) VIOL("suite-not-enabled|server", "suite %04x was disabled on the server session", suite);
+    if (!in16(ch->suites, ch->nsuites, suite)) VIOL("suite-not-offered", "suite %04x is not in ClientHello.cipher_suites", suite);
+    if (!suite_ok_for_rank(suite, rank)) VIOL("suite-not-valid-for-version", "suite %04x with version %s", suite, enc_name(R->ver_enc[0]));
+    /* key-exchange group */
+    {
+        int g = 0, used = 0;
+        if (rank == 3)
+        {
+            const hello_t *sh = &R->sh[R->nsh > 1 ? 1 : 0];
+            int ki = R->nsh ? hello_find(sh, X_KEY_SHARE) : -1;
+            if (ki >= 0 && sh->ext[ki].len >= 2) { g = (sh->arena[sh->ext[ki].off] << 8) | sh->arena[sh->ext[ki].off + 1]; used = 1; }
+            if (used && (R->group[0] != g || R->group[1] != g)) VIOL("endpoints-disagree|group", "ServerHello key_share %04x, client state %04x, server state %04x", g, R->group[0], R->group[1]);
+        }
+        else if (suite_is_ecdhe(suite))
+        {
+            g = R->ske_group; used = 1;
+        }
+        if (used)
+        {
+            static const int ecbit[] = { IS_SECP256R1, IS_SECP384R1, IS_SECP521R1 };
+            xi = hello_find(ch, X_SUPPORTED_GROUPS);
+            n = xi >= 0 ? xlist_get(ch, xi, 2, l, 64) : 0;
+            if (!in16(l, n, g)) VIOL("group-not-offered", "group %04x is not in ClientHello.supported_groups", g);
+            if (rank == 3 && c->ncgrp && !in16(c->cgrp, c->ncgrp, g)) VIOL("group-not-enabled|client", "group %04x not in the client's key-exchange group list", g);
+            if (rank == 3 && c->nsgrp && !in16(c->sgrp, c->nsgrp, g)) VIOL("group-not-enabled|server", "group %04x not in the server's key-exchange group list", g);
+            if (rank < 3 && g >= 0x17 && g <= 0x19)
+            {
+                if (c->cec && !(c->cec & ecbit[g - 0x17])) VIOL("group-not-enabled|client", "curve %04x not in the client's ecFlags", g);
+                if (c->sec && !(c->sec & ecbit[g - 0x17])) VIOL("group-not-enabled|server", "curve %04x not in the server's ecFlags", g);
+            }
+        }
+    }
+    /* signature algorithm of the server's signature */
+    {
+        int a = 0;
+        if (rank == 3 && c->keys != K_PSK)
+        {
+            a = R->sigalg[1] ? R->sigalg[1] : R->sigalg[0];
+            if (R->sigalg[0] && R->sigalg[1] && R->sigalg[0] != R->sigalg[1]) VIOL("endpoints-disagree|sigalg", "client saw %04x, server used %04x", R->sigalg[0], R->sigalg[1]);
+        }
+        else if (rank == 2 && suite_is_ecdhe(suite))
+        {
+            a = R->ske_sigalg;
+        }
+        if (a)
+        {
+            xi = hello_find(ch, X_SIGALGS);
+            n = xi >= 0 ? xlist_get(ch, xi, 2, l, 64) : 0;
+            if (xi >= 0 && !in16(l, n, a)) VIOL("sigalg-not-offered", "server signed with %04x which is not in ClientHello.signature_algorithms", a);
+            if (c->ncsig && !in16(c->csig, c->ncsig, a)) VIOL("sigalg-not-enabled|client", "server signed with %04x which the client did not enable", a);
+            if (c->nssig && !in16(c->ssig, c->nssig, a)) VIOL("sigalg-not-enabled|server", "server signed with %04x which is not in the server's own signature algorithm list", a);
+        }
+        if (c->client_auth && rank == 2 && R->cv_sigalg && c->nssig && !in16(c->ssig, c->nssig, R->cv_sigalg)) VIOL("sigalg-not-enabled|server", "client CertificateVerify uses %04x which the server did not enable", R->cv_sigalg);
+    }
+    /* extended master secret */
+    if (rank < 3)
+    {
+        if (R->ems[0] != R->ems[1]) VIOL("endpoints-disagree|extended-master-secret", "client %d server %d", R->ems[0], R->ems[1]);
+        if ((c->cems > 0 || c->sems > 0) && !R->ems[0]) VIOL("ems-required-but-not-used", "cems %d sems %d", c->cems, c->sems);
+        if (c->cems < 0 && R->ems[0]) VIOL("ems-used-although-client-disabled", "cems %d", c->cems);
+    }
+}
+
+static void judge(run_t *R, int prod, verdict_t *v)
+{
+    const ncfg_t *c = R->c;
+    ref_t ref;
+    int both = R->complete[0] && R->complete[1], none = !R->complete[0] && !R->complete[1], al = any_alert(R);
+    int hvr_ch1_only = c->dtls && R->target == 0 && R->nch >= 2;
+    memset(v, 0, sizeof(*v));
+    reference(c, &ref);
+    if (R->setup_rc)
+    {
+        snprintf(v->outcome, sizeof(v->outcome), "%s:setup-refused", pname[prod]);
+        if (prod == P_FB) return;   /* fallbackScsv on a client whose highest version is the build's highest is refused by the API: fine */
+        v->viol = 2; snprintf(v->key, sizeof(v->key), "INTERNAL:setup"); snprintf(v->what, sizeof(v->what), "%s", R->setup_what);
+        return;
+    }
+    if (R->roundtrip_bad) { v->viol = 2; snprintf(v->key, sizeof(v->key), "INTERNAL:hello-roundtrip"); snprintf(v->what, sizeof(v->what), "parser/encoder does not reproduce a hello (%d)", R->roundtrip_bad); return; }
+    check_sentinel(R, &ref, v);
+    if (R->target >= 0)
+    {
+        const char *tn = R->target >= 3 ? (R->sh[R->target - 3].random[0] == 0xCF && hello_is_hrr(&R->sh[R->target - 3]) ? "HRR" : "SH") : "CH";
+        int rcv = R->target >= 3 ? 0 : 1;
+        if (!R->applied || R->noop) { snprintf(v->outcome, sizeof(v->outcome), "rw:not-applicable"); return; }
+        if (both && hvr_ch1_only)
+        {
+            /* DTLS: the first ClientHello and the HelloVerifyRequest are not part of the transcript; the authentic second
+               ClientHello decides.  Completion is legitimate iff the outcome passes the honest-run checks. */
+            check_completed(R, &ref, 1, v);
+            snprintf(v->outcome, sizeof(v->outcome), "rw:%s:%s:ch1-only-completed-on-authentic-ch2", tn, R->info.klass);
+            return;
+        }
+        if (both) VIOL((snprintf(v->outcome, sizeof(v->outcome), "rewrite-undetected|%s|%s", tn, R->info.klass), v->outcome), "%s: both endpoints completed (%s/%04x) after in-transit rewrite %s", c->label, enc_name(R->ver_enc[0]), R->suite[0], R->info.name);
+        else if (!none) VIOL((snprintf(v->outcome, sizeof(v->outcome), "rewrite-accepted-by-one-endpoint|%s|%s", tn, R->info.klass), v->outcome), "%s: %s completed after in-transit rewrite %s", c->label, R->complete[0] ? "client" : "server", R->info.name);
+        else if (R->info.expect == EXP_PEER_ABORTS_AT_HELLO && !hvr_ch1_only)
+        {
+            if (R->after[rcv] > 0 || (R->info.alert && R->alert[rcv] != R->info.alert))
+            {
+                VIOL((snprintf(v->outcome, sizeof(v->outcome), "hello-check-missing|%s|%s", tn, R->info.klass), v->outcome),
+                    "%s: %s did not abort on the hello itself after rewrite %s (sent %d more records, alert %d, expected alert %d)", c->label, rcv ? "server" : "client", R->info.name, R->after[rcv], R->alert[rcv], R->info.alert);
+            }
+        }
+        snprintf(v->outcome, sizeof(v->outcome), "rw:%s:%s:%s", tn, R->info.klass, both ? "BOTH-COMPLETE" : !none ? "ONE-COMPLETE" : R->after[rcv] == 0 ? "aborted-at-hello" : "failed-later");
+        return;
+    }
+    /* honest run */
+    if (prod == P_FB && ref.common)
+    {
+        int smax = 0, cmax = 0, i;
+        for (i = 1; i <= 3; i++) { if (ref.sset & (1 << i)) smax = i; if (ref.cset & (1 << i)) cmax = i; }
+        if (smax > cmax)
+        {
+            if (!none) VIOL("fallback-scsv-ignored", "client max rank %d sent TLS_FALLBACK_SCSV to a server with max rank %d and the handshake completed", cmax, smax);
+            else if (R->alert[1] != 86 || R->after[1] > (c->dtls ? 1 : 0)) VIOL(c->dtls ? "fallback-scsv-ignored|dtls" : "fallback-scsv-ignored", "server (max rank %d) did not answer inappropriate_fallback to client_version rank %d + TLS_FALLBACK_SCSV (alert %d, %d records)", smax, cmax, R->alert[1], R->after[1]);
+            snprintf(v->outcome, sizeof(v->outcome), "fb:fallback-refused-a%d", R->alert[1]);
+            return;
+        }
+    }
+    if (both)
+    {
+        check_completed(R, &ref, 1, v);
+        if (!ref.ref_rank) VIOL("completed-without-common-parameters", "reference says not negotiable but both completed (%s/%04x)", enc_name(R->ver_enc[0]), R->suite[0]);
+        snprintf(v->outcome, sizeof(v->outcome), "%s:ok:%s%s", pname[prod], enc_name(R->ver_enc[0]), ref.ref_rank && enc_rank(R->ver_enc[0]) != ref.ref_rank ? ":below-reference" : "");
+        return;
+    }
+    if (!none) VIOL("endpoints-disagree|completion", "honest run: client complete %d, server complete %d", R->complete[0], R->complete[1]);
+    if (!al) VIOL("refused-without-alert", "handshake failed (client rc %d, server rc %d) but no fatal alert was sent", R->w.s[0].err_rc, R->w.s[1].err_rc);
+    if (ref.ref_rank)
+    {
+        snprintf(v->outcome, sizeof(v->outcome), "%s:NEGOTIABLE-BUT-REFUSED:a%d", pname[prod], al);
+        if ((prod == P_VER || prod == P_VERD) && ref.default_order)
+        {
+            VIOL(!c->ncver || !c->nsver ? "negotiable-but-refused|library-default-versions" : "negotiable-but-refused|explicit-version-lists",
+                "both endpoints enable %s (default priority order) but the handshake fails with alert %d; session version masks client %x server %x", ref.ref_rank == 3 ? "1.3" : ref.ref_rank == 2 ? "1.2" : "1.1", al, R->supp[0], R->supp[1]);
+        }
+    }
+    else
+    {
+        snprintf(v->outcome, sizeof(v->outcome), "%s:refused:a%d", pname[prod], al);
+    }
+}
+
+/* --------------------------------------------------------------------------------------- cases */
+typedef struct { int prod; long idx; int target, k; } case_t;
+static const char *tname[] = { "CH#0", "CH#1", "CH#0+CH#1", "SH#0", "SH#1" };
+
+static run_t g_run;
+static ncfg_t g_cfg;
+static int verbose;
+
+static void hexdump(const char *tag, const unsigned char *p, int n)
+{
+    int i;
+    fprintf(stderr, "%s (%d bytes): ", tag, n);
+    for (i = 0; i < n; i++) fprintf(stderr, "%02x", p[i]);
+    fprintf(stderr, "\n");
+}
+
+static void run_case(void *ctx, mx_result_t *r)
+{
+    case_t *cs = ctx;
+    run_t *R = &g_run;
+    verdict_t v;
+    memset(R, 0, sizeof(*R));
+    if (build_cfg(cs->prod, cs->idx, &g_cfg) < 0)
+    {
+        snprintf(r->outcome, sizeof(r->outcome), "%s:n/a", pname[cs->prod]);
+        return;
+    }
+    R->c = &g_cfg;
+    R->target = cs->target; R->k = cs->k;
+    run_exec(R);
+    judge(R, cs->prod, &v);
+    r->violation = v.viol;
+    snprintf(r->key, sizeof(r->key), "%s", v.key);
+    snprintf(r->outcome, sizeof(r->outcome), "%s", v.outcome);
+    if (v.viol)
+    {
+        char ct[200];
+        cfg_text(&g_cfg, ct, sizeof(ct));
+        snprintf(r->what, sizeof(r->what), "%s [%s]", v.what, ct);
+    }
+    r->trace_hash = world_trace_hash(&R->w);
+    r->transitions = R->w.actions;
+    r->nontrivial = !(cs->target >= 0 && (!R->applied || R->noop));
+    if (verbose)
+    {
+        char ct[240];
+        int i;
+        cfg_text(&g_cfg, ct, sizeof(ct));
+        fprintf(stderr, "config: %s %s\n", g_cfg.label, ct);
+        if (cs->target >= 0) fprintf(stderr, "rewrite: %s #%d = %s (class %s, expect %s alert %d) applied %d noop %d\n", tname[cs->target], cs->k, R->info.name, R->info.klass, R->info.expect ? "abort-at-hello" : "fail", R->info.alert, R->applied, R->noop);
+        for (i = 0; i < 4; i++) if (R->rawlen[i]) hexdump(i < 2 ? (i ? "ClientHello#1 (as sent)" : "ClientHello#0 (as sent)") : (i == 2 ? "ServerHello#0 (as sent)" : "ServerHello#1 (as sent)"), R->raw[i], R->rawlen[i]);
+        fprintf(stderr, "session version masks: client %x server %x; HelloVerifyRequests %d\n", R->supp[0], R->supp[1], R->nhvr);
+        for (i = 0; i < 2; i++)
+        {
+            fprintf(stderr, "%s: complete %d version %s suite %04x group %04x sigalg %04x ems %d err_rc %d sent-alert %d got-alert %d/%d records-after-injection %d\n", i ? "server" : "client",
+                R->complete[i], enc_name(R->ver_enc[i]), R->suite[i], R->group[i], R->sigalg[i], R->ems[i], R->w.s[i].err_rc, R->alert[i], R->w.s[i].got_alert_lvl, R->w.s[i].got_alert_desc, R->after[i]);
+        }
+        fprintf(stderr, "wire: SKE group %04x SKE sigalg %04x CV sigalg %04x; keys_equal %d ping_ok %d\n", R->ske_group, R->ske_sigalg, R->cv_sigalg, R->keys_equal, R->ping_ok);
+        fprintf(stderr, "trace:\n%.*s", (int) R->w.trace.len, (const char *) R->w.trace.p);
+        fprintf(stderr, "verdict: %s %s %s\n", v.outcome, v.key, v.what);
+    }
+}
+
+static case_t *cases;
+static long ncases, capcases;
+static void add_case(int prod, long idx, int target, int k)
+{
+    if (ncases >= capcases)
+    {
+        capcases = capcases ? capcases * 2 : 8192;
+        cases = realloc(cases, (size_t) capcases * sizeof(case_t));
+    }
+    cases[ncases].prod = prod; cases[ncases].idx = idx; cases[ncases].target = target; cases[ncases].k = k;
+    ncases++;
+}
+
+#define GROUP 8
+static void run_group(long gi, void *unused)
+{
+    long k, lo = gi * GROUP, hi = lo + GROUP;
+    (void) unused;
+    if (hi > ncases) hi = ncases;
+    for (k = lo; k < hi; k++)
+    {
+        char desc[240], ct[150];
+        case_t *c = &cases[k];
+        ncfg_t cfg;
+        if (mx_deadline_hit()) return;
+        if (build_cfg(c->prod, c->idx, &cfg) < 0) continue;
+        cfg_text(&cfg, ct, sizeof(ct));
+        if (c->target >= 0) snprintf(desc, sizeof(desc), "p=%s;i=%ld;t=%d;k=%d (%s rewrite %s #%d)", pname[c->prod], c->idx, c->target, c->k, cfg.label, tname[c->target], c->k);
+        else snprintf(desc, sizeof(desc), "p=%s;i=%ld;t=-1;k=-1 (%s)", pname[c->prod], c->idx, ct);
+        mx_fork_case(desc, run_case, c);
+    }
+}
+
+/* run base pair b honestly in a throw-away child and report how many hellos / rewrites exist */
+typedef struct { int nch, nsh, nrw[5], complete; } probe_t;
+static void probe_base(int b, probe_t *out)
+{
+    probe_t *sh = mmap(NULL, sizeof(probe_t), PROT_READ | PROT_WRITE, MAP_SHARED | MAP_ANONYMOUS, -1, 0);
+    pid_t pid;
+    memset(sh, 0, sizeof(*sh));
+    fflush(NULL);
+    pid = fork();
+    if (pid == 0)
+    {
+        run_t *R = &g_run;
+        memset(R, 0, sizeof(*R));
+        build_cfg(P_RW, b, &g_cfg);
+        R->c = &g_cfg; R->target = -1; R->k = -1;
+        run_exec(R);
+        sh->nch = R->nch; sh->nsh = R->nsh; sh->complete = R->complete[0] && R->complete[1];
+        memcpy(sh->nrw, R->nrw, sizeof(sh->nrw));
+        _exit(0);
+    }
+    waitpid(pid, NULL, 0);
+    *out = *sh;
+    munmap(sh, sizeof(probe_t));
+}
+
+static int prod_by_name(const char *s, size_t n)
+{
+    int p;
+    for (p = 0; p < P_NPROD; p++) if (strlen(pname[p]) == n && !strncmp(pname[p], s, n)) return p;
+    return -1;
+}
+
+int main(int argc, char **argv)
+{
+    mx_cfg_t cfg;
+    const char *replay;
+    long i;
+    int b, nrw_total = 0;
+    static char extra[512];
+
+    memset(&cfg, 0, sizeof(cfg));
+    cfg.property = "C07";
+    cfg.sanitizer_is_oracle = 1;
+    cfg.level = "exploration";
+    cfg.engine = "exhaustive configuration products and exhaustive single-field hello rewrites (structural parser/re-encoder), each case = two real MatrixSSL sessions in a forked child, judged by a reference negotiation function + membership checks against configuration and ClientHello";
+    cfg.rule = "case = (product, index) honest handshake, or (base pair, target hello occurrence, rewrite index); every index of every product in the tier is run (no sampling). "
+               "Rewrite alphabet = single-field edits of hello body fields; excluded as unauthenticated by the protocol: record-header version/sequence bytes, DTLS message_seq/fragment fields, DTLS cookie; "
+               "a DTLS rewrite of only the first (pre-HelloVerifyRequest) ClientHello is outside the transcript and may complete if the outcome passes the honest-run checks; rewrites whose encoding equals the original are skipped (not-applicable)";
+    cfg.assumptions[0] = "entropy and clock pinned; build configuration configs/default (TLS 1.1-1.3, DTLS 1.0/1.2, X25519, PSK, no renegotiation)";
+    cfg.assumptions[1] = "enabled(version) = list given to matrixSslSessOptsSet{Client,Server}TlsVersions (library default = every compiled-in TLS version), minus TLS 1.3 on a client without TLS 1.3 suites (documented); DTLS version sets only via versionFlag ({1.0} or {1.2,1.0}): the list setters refuse DTLS versions";
+    cfg.assumptions[2] = "enabled(suite): client = cipherSpec[]; server = build minus matrixSslSetCipherSuiteEnabledStatus(PS_FALSE); enabled(group) = matrixSslSessOptsSetKeyExGroups (TLS 1.3) / ecFlags (<=1.2); enabled(sigalg) = matrixSslSessOptsSetSigAlgs";
+    cfg.assumptions[3] = "negotiable-but-refused is a violation only for default-order version lists (incl. library default) with PSK suites usable at every version; elsewhere it is an outcome class";
+    replay = mx_parse_args(argc, argv, &cfg);
+    thorough = !strcmp(cfg.tier, "thorough");
+    cfg.bound = thorough ? "all 256 ordered TLS version-list pairs (15 lists + library default per side), 4 DTLS flag pairs, version x suite cross 2401, suite subsets 2x225, groups 450+49, sigalgs 3x225, EMS 36, fallback 25; every hello rewrite on 12 base pairs"
+                         : "all 256 ordered TLS version-list pairs, 4 DTLS flag pairs, version x suite cross slice 343, suite subsets 225, groups 75+49, sigalgs 75+75, EMS 36, fallback 25; every hello rewrite on 4 base pairs";
+
+    if (replay)
+    {
+        case_t c;
+        mx_result_t r;
+        const char *semi = strchr(replay, ';');
+        memset(&c, 0, sizeof(c));
+        if (strncmp(replay, "p=", 2) || !semi || (c.prod = prod_by_name(replay + 2, (size_t) (semi - replay - 2))) < 0 || sscanf(semi, ";i=%ld;t=%d;k=%d", &c.idx, &c.target, &c.k) != 3)
+        {
+            fprintf(stderr, "bad descriptor\n");
+            return 2;
+        }
+        memset(&r, 0, sizeof(r));
+        snprintf(r.desc, sizeof(r.desc), "%s", replay);
+        verbose = 1;
+        run_case(&c, &r);
+        mx_replay_print(&r);
+        return 0;
+    }
+    mx_init(&cfg);
+    for (i = 0; i < psize(P_VER); i++) add_case(P_VER, i, -1, -1);
+    for (i = 0; i < psize(P_VERD); i++) add_case(P_VERD, i, -1, -1);
+    for (i = 0; i < psize(P_EMS); i++) add_case(P_EMS, i, -1, -1);
+    for (i = 0; i < psize(P_FB); i++) add_case(P_FB, i, -1, -1);
+    for (i = 0; i < psize(P_VXS); i++) if (thorough || i / 343 == 6) add_case(P_VXS, i, -1, -1);
+    for (i = 0; i < psize(P_SUITE); i++) add_case(P_SUITE, i, -1, -1);
+    for (i = 0; i < psize(P_GRP12); i++) add_case(P_GRP12, i, -1, -1);
+#define SLICE(i) (thorough || (i) / 15 == 14 || (i) / 15 == 0 || (i) / 15 == 1 || (i) / 15 == 3 || (i) / 15 == 7)
+    for (i = 0; i < psize(P_GRP13); i++) if (thorough || (i < 225 && SLICE(i))) add_case(P_GRP13, i, -1, -1);
+    for (i = 0; i < psize(P_SIG13); i++) if (SLICE(i)) add_case(P_SIG13, i, -1, -1);
+    for (i = 0; i < psize(P_SIG12); i++) if (SLICE(i)) add_case(P_SIG12, i, -1, -1);
+    if (thorough)
+    {
+        for (i = 0; i < psize(P_SUITE12); i++) add_case(P_SUITE12, i, -1, -1);
+        for (i = 0; i < psize(P_SIG13CA); i++) add_case(P_SIG13CA, i, -1, -1);
+    }
+    for (b = 0; b < psize(P_RW); b++)
+    {
+        probe_t pr;
+        int t;
+        if (!thorough && b > 3) break;
+        probe_base(b, &pr);
+        add_case(P_RW, b, -1, -1);
+        fprintf(stderr, "base %d: complete %d, %d ClientHello, %d ServerHello, rewrites %d/%d/%d/%d/%d\n", b, pr.complete, pr.nch, pr.nsh, pr.nrw[0], pr.nrw[1], pr.nrw[2], pr.nrw[3], pr.nrw[4]);
+        if (!pr.complete) mx_note_skipped("a rewrite base pair does not complete honestly");
+        for (t = 0; t < 5; t++)
+        {
+            int k;
+            for (k = 0; k < pr.nrw[t]; k++) { add_case(P_RW, b, t, k); nrw_total++; }
+        }
+    }
+    fprintf(stderr, "drv_c07: %ld cases (%d rewrites)\n", ncases, nrw_total);
+    mx_parallel((ncases + GROUP - 1) / GROUP, run_group, NULL);
+    snprintf(extra, sizeof(extra), "\"cases_enumerated\":%ld,\"rewrite_cases\":%d", ncases, nrw_total);
+    return mx_finish(extra);
+}
